@@ -282,11 +282,15 @@ VAL, RET, CONT, BRK = "val", "ret", "cont", "brk"
 
 
 class Sym:
-    def __init__(self, fx, opaque=lambda path: False, inline_depth=4, models=None, krates=("proguard",), inline_mut=False):
+    def __init__(self, fx, opaque=lambda path: False, inline_depth=4, models=None, krates=("proguard",), inline_mut=False, thread_places=False):
         self.fx = fx
         self.opaque = opaque
         self.inline_depth = inline_depth
         self.inline_mut = inline_mut      # also inline local helpers that take `&mut` places (not generic sinks)
+        # with inline_mut: the *values* of the caller's places are threaded through the inlined helper (reads of `self.field`
+        # inside it see the current value, its writes are visible to the caller afterwards) - a cursor object with `&mut self`
+        # methods then evaluates like the straight-line code it replaces. Opt-in: rules that read place *effects* do not want it.
+        self.thread_places = thread_places
         self.tsubst = []                  # stack of {generic parameter name: concrete type} of the helpers being inlined
         self.loops = {}       # id(loop node) -> dict(node, entry, paths)
         self._reserved = {}
@@ -467,8 +471,50 @@ class Sym:
             return ("cast", to, v)
         return self._unary(n, st, f)
 
+    def pread(self, st, name, path):
+        """current value of the caller's place `name.path` as threaded into this inlined helper (None: not threaded)"""
+        key = ("P", name)
+        best = None
+        for (k0, kp), v in st.store.items():
+            if k0 == key and tuple(path[:len(kp)]) == tuple(kp):
+                if best is None or len(kp) > len(best[0]):
+                    best = (kp, v)
+        if best is None:
+            return None
+        val = best[1]
+        for fn in path[len(best[0]):]:
+            val = mk_field(val, fn)
+        ups = tuple(sorted(((kp[len(path):], v) for (k0, kp), v in st.store.items()
+                            if k0 == key and len(kp) > len(path) and tuple(kp[:len(path)]) == tuple(path)), key=repr))
+        return apply_upd(val, ups) if ups else val
+
+    def pwrite(self, st, name, path, v):
+        key = ("P", name)
+        if not any(k0 == key for (k0, kp) in st.store):
+            return st
+        s = st.copy()
+        for k in [k for k in s.store if k[0] == key and tuple(k[1][:len(path)]) == tuple(path)]:
+            del s.store[k]
+        s.store[(key, tuple(path))] = v
+        return s
+
     def ev_Field(self, n, st):
-        return self._unary(n, st, lambda v: mk_field(v, n["name"]))
+        out = self._unary(n, st, lambda v: mk_field(v, n["name"]))
+        if not self.thread_places:
+            return out
+        res = []
+        for s, (k, v) in out:
+            if k == VAL:
+                t, chain = v, []
+                while t[0] == "field":
+                    chain.insert(0, t[2])
+                    t = t[1]
+                if t[0] == "place":
+                    cur = self.pread(s, t[1], tuple(t[2]) + tuple(chain))
+                    if cur is not None:
+                        v = cur
+            res.append((s, (k, v)))
+        return res
 
     def ev_Index(self, n, st):
         done, exits = self.ev_seq([n["e"], n["index"]], st)
@@ -1007,6 +1053,8 @@ class Sym:
         s = st.copy()
         vid, _, path = pl[0], pl[1], pl[2]
         if len(pl) > 3 and pl[3] is not None:
+            if self.thread_places and pl[3][0] == "place":
+                return self.pwrite(s, pl[3][1], tuple(pl[3][2]) + tuple(path), v)
             return s        # writes through a reference are recorded as effects only
         for key in [key for key in s.store if key[0] == vid and key[1][:len(path)] == path]:
             del s.store[key]
@@ -1179,8 +1227,31 @@ class Sym:
                 # inside it - Pod::slice_from_prefix<T>, parse::<F> - must name the concrete type)
                 gens, targs = b.get("generics") or [], [self.subst_ty(t_) for t_ in (f.get("targs") or [])]
                 self.tsubst.append({g: t_ for g, t_ in zip(gens, targs) if not g.startswith("'")} if len(gens) == len(targs) else {})
+                st0 = St(conds=st.conds, effects=st.effects, n=st.n)
+                threaded = {}
+                if self.thread_places:
+                    for key_, val_ in st.store.items():
+                        if isinstance(key_[0], tuple) and key_[0][:1] == ("P",):
+                            st0.store[key_] = val_      # places threaded into this frame stay readable in its callees
+                    for i in mut_idx:
+                        if vals[i][0] != "place":
+                            continue
+                        pl = self.place_of(n["args"][i], st)
+                        if pl is None:
+                            continue
+                        if pl[3] is None:
+                            cur = self.read_var({"id": pl[0], "name": pl[1]}, st)
+                            for fn in pl[2]:
+                                cur = mk_field(cur, fn)
+                        elif pl[3][0] == "place":
+                            cur = self.pread(st, pl[3][1], tuple(pl[3][2]) + tuple(pl[2]))
+                        else:
+                            cur = None
+                        if cur is not None:
+                            st0.store[(("P", vals[i][1]), tuple(vals[i][2]))] = cur
+                            threaded[i] = (vals[i][1], tuple(vals[i][2]), cur)
                 try:
-                    res = self.eval_body(b, vals, St(conds=st.conds, effects=st.effects, n=st.n))
+                    res = self.eval_body(b, vals, st0)
                 finally:
                     self.tsubst.pop()
                 out = []
@@ -1189,11 +1260,17 @@ class Sym:
                     s3.conds, s3.effects, s3.n = s2.conds, s2.effects, s2.n
                     if mut_idx and len(s2.effects) > len(st.effects):
                         # the callee worked on the caller's places through `&mut` parameters: what the caller knew about
-                        # those places is stale now
+                        # those places is stale now (unless their values were threaded through the callee)
                         s3.n += 1
                         for i in mut_idx:
                             pl = self.place_of(n["args"][i], s3)
                             if pl is not None:
+                                if i in threaded:
+                                    fin = self.pread(s2, threaded[i][0], threaded[i][1])
+                                    if fin is not None:
+                                        if fin != threaded[i][2]:
+                                            s3 = self.write_place(s3, pl, fin)
+                                        continue
                                 s3 = self.write_place(s3, pl, ("after", ("inlined", short_path(tgt), s3.n), i))
                     out.append((s3, (VAL, v)))
                 return out
